@@ -44,3 +44,15 @@ Theorem C08_announced_line_fixpoint : forall (strip : str -> str) (d t : str),
   DefaultDoc.set_default_doc strip d1 t1 true = line1.
 Proof. exact ExtractDefaultProofs.announced_line_fixpoint. Qed.
 Print Assumptions C08_announced_line_fixpoint.
+
+(* ---- quote / unquote (pure_utils; quote is Model/DefaultDoc.v, unquote Model/Quote.v, both compared with the code each run): the
+   emitter writes a string default in quotes, the parser removes one pair.  For EVERY text that quote() wraps (not empty, not already
+   wearing a matching pair of quotes) the pair cancels; a text that already wears quotes is left alone by quote and stripped by
+   unquote, so ITS quotes are lost (C08_quote_refuted: the recorded drift of defaults such as '"q"'). *)
+From CDD Require Quote QuoteProofs.
+Theorem C08_unquote_quote : forall s, QuoteProofs.bare s = true -> Quote.unquote (DefaultDoc.quote s) = s.
+Proof. exact QuoteProofs.unquote_quote. Qed.
+Print Assumptions C08_unquote_quote.
+Theorem C08_quote_refuted :
+  DefaultDoc.quote (s2l "'q'") = s2l "'q'" /\ Quote.unquote (DefaultDoc.quote (s2l "'q'")) = s2l "q" /\ QuoteProofs.bare (s2l "'q'") = false.
+Proof. exact QuoteProofs.quoted_text_loses_its_quotes. Qed.
